@@ -138,12 +138,30 @@ package tubes
 // (C09) the lookup is by (reliability, id): the reliable table for reliable frames, the unreliable one otherwise
 //@   ensures isReliable ==> typeis(t, "*hop.computer/hop/tubes.Reliable") && (ok <==> has(m.reliableTubes, tubeID)) && (ok ==> ref(t) == ref(m.reliableTubes[tubeID]))
 //@   ensures !isReliable ==> typeis(t, "*hop.computer/hop/tubes.Unreliable") && (ok <==> has(m.unreliableTubes, tubeID)) && (ok ==> ref(t) == ref(m.unreliableTubes[tubeID]))
+// (C09) a locally opened tube (req) is only registered under an id that is free in the table of ITS kind - checked at
+// the call sites.  (For a tube opened by the peer the lookup that failed and this registration are two critical
+// sections: nothing is claimed there.)
 //@ func (m *Muxer) makeReliableTubeWithID(tType TubeType, tubeID byte, req bool) (t *Reliable, err error)
 //@   assume tube construction (allocates a tube, registers it in the muxer's table, starts its goroutines); does not touch the frame being dispatched or the receive buffer
+//@   requires req ==> !has(m.reliableTubes, tubeID)
 //@   modifies opaque(m)
+//@   ensures err == nil ==> t != nil
 //@ func (m *Muxer) makeUnreliableTubeWithID(tType TubeType, tubeID byte, req bool) (t *Unreliable, err error)
 //@   assume tube construction (as above)
+//@   requires req ==> !has(m.unreliableTubes, tubeID)
 //@   modifies opaque(m)
+//@   ensures err == nil ==> t != nil
+// Opening a tube locally: the id is chosen for the kind of tube that is then made, with this side's parity, as a request.
+//@ func (m *Muxer) CreateReliableTube(tType TubeType) (t *Reliable, err error)
+//@   property C09
+//@   atomic
+//@   requires m.idParity == 0 || m.idParity == 1
+//@   ensures err == nil ==> called(tubes.Muxer.makeReliableTubeWithID) && !called(tubes.Muxer.makeUnreliableTubeWithID) && argof(tubes.Muxer.makeReliableTubeWithID, tubeID) % 2 == m.idParity && argof(tubes.Muxer.makeReliableTubeWithID, req)
+//@ func (m *Muxer) CreateUnreliableTube(tType TubeType) (t *Unreliable, err error)
+//@   property C09
+//@   atomic
+//@   requires m.idParity == 0 || m.idParity == 1
+//@   ensures err == nil ==> called(tubes.Muxer.makeUnreliableTubeWithID) && !called(tubes.Muxer.makeReliableTubeWithID) && argof(tubes.Muxer.makeUnreliableTubeWithID, tubeID) % 2 == m.idParity && argof(tubes.Muxer.makeUnreliableTubeWithID, req)
 // Both implementations dereference their receiver: calling them through a typed-nil interface value panics.
 //@ func (t Tube) receiveInitiatePkt(pkt *initiateFrame) (err error)
 //@   assume the tube's own state machine (C08 / C09): touches only the tube
